@@ -60,40 +60,62 @@ Definition check_typed (c : ty * string * option value) : bool :=
   end.
 
 (* ---------- stream-level codec (Codec.v) on descriptors printed from reflection (Desc.v) ---------- *)
-From V.C08 Require Import Codec Desc.
+From V.C08 Require Import Codec Desc Gen.
+
+Definition site := (string * string * string * string * string)%type.
+Definition site_eqb (a b : site) : bool :=
+  let '(a1, a2, a3, a4, a5) := a in let '(b1, b2, b3, b4, b5) := b in
+  String.eqb a1 b1 && String.eqb a2 b2 && String.eqb a3 b3 && String.eqb a4 b4 && String.eqb a5 b5.
 
 Inductive ccase :=
+(* the descriptor table re-extracted from the sources under test vs the committed coq/C08/Gen.v *)
+| CGenSites (s : list site)
+| CGenTypes (l : list (string * gty))
+(* the descriptor reflection prints for a real value of a generated type vs the generated one *)
+| CGenReflect (name : string) (g : gty)
+(* codec cases on a GENERATED descriptor, looked up by name in Gen.gen_types *)
+| CDecG (name : string) (input : string) (o : option value)
+| CEncG (name : string) (v : value) (o : option string)
 | CDec (g : gty) (input : string) (o : option value)     (* rlp.DecodeBytes(input, &T): value / rejected *)
 | CEnc (g : gty) (v : value) (o : option string)         (* rlp.EncodeToBytes(v): bytes / error *)
 | CBadTy (g : gty).                                      (* the package refuses the type *)
 
+Definition chk_cdec (g : gty) (h : string) (o : option value) : bool :=
+  match lower g with
+  | None => false
+  | Some t =>
+    let b := unhex h in
+    match tdec_bytes t b, o with
+    | Ok v, Some v' => value_eqb v v' && wfv t v &&
+                       match tenc t v with Some b' => bytes_eqb b' b | None => false end
+    | Err _, None => true
+    | _, _ => false
+    end
+  end.
+
+Definition chk_cenc (g : gty) (v : value) (o : option string) : bool :=
+  match lower g with
+  | None => false
+  | Some t =>
+    match tenc t v, o with
+    | Some b, Some h => bytes_eqb b (unhex h) &&
+                        (* model's own round trip on this value, when it is in the theorem's domain *)
+                        (if cty_ok t && wfv t v
+                         then match tdec_bytes t b with Ok v' => value_eqb v' v | Err _ => false end
+                         else true)
+    | None, None => true
+    | _, _ => false
+    end
+  end.
+
 Definition check_codec (c : ccase) : bool :=
   match c with
-  | CDec g h o =>
-    match lower g with
-    | None => false
-    | Some t =>
-      let b := unhex h in
-      match tdec_bytes t b, o with
-      | Ok v, Some v' => value_eqb v v' && wfv t v &&
-                         match tenc t v with Some b' => bytes_eqb b' b | None => false end
-      | Err _, None => true
-      | _, _ => false
-      end
-    end
-  | CEnc g v o =>
-    match lower g with
-    | None => false
-    | Some t =>
-      match tenc t v, o with
-      | Some b, Some h => bytes_eqb b (unhex h) &&
-                          (* model's own round trip on this value, when it is in the theorem's domain *)
-                          (if cty_ok t && wfv t v
-                           then match tdec_bytes t b with Ok v' => value_eqb v' v | Err _ => false end
-                           else true)
-      | None, None => true
-      | _, _ => false
-      end
-    end
+  | CGenSites s => list_eqb site_eqb s gen_sites
+  | CGenTypes l => list_eqb (fun a b => String.eqb (fst a) (fst b) && gty_eqb (snd a) (snd b)) l gen_types
+  | CGenReflect name g => match lookup_gty name gen_types with Some g' => gty_eqb g g' | None => false end
+  | CDecG name h o => match lookup_gty name gen_types with Some g => chk_cdec g h o | None => false end
+  | CEncG name v o => match lookup_gty name gen_types with Some g => chk_cenc g v o | None => false end
+  | CDec g h o => chk_cdec g h o
+  | CEnc g v o => chk_cenc g v o
   | CBadTy g => match lower g with None => true | Some _ => false end
   end.
